@@ -3,6 +3,7 @@ SPECIFICATION Spec
 CONSTANTS
   MembersFile = "members.ndjson"
   ExhaustiveFams = {"AllocKind", "DISPFlag"}
+  Arity = 2
   RangeLimited = FALSE
 INVARIANTS ExactCover Decomposable Emit
 CHECK_DEADLOCK FALSE
